@@ -45,6 +45,7 @@ type FuncSpec struct {
 	Modifies []string        // ghost names; nil = unknown (all)
 	ModSet   bool
 	Pure     bool
+	InlineAtCalls bool // verified on its own, but inlined at call sites
 	Assumed  bool // contract of a repository function that is NOT verified (wrappers of external services); listed as an assumption
 	NoPanicOnly []string
 	ExactPrefix map[string]bool // families whose byte-prefix iteration is assumed to select exactly the given components
@@ -284,6 +285,10 @@ func (db *SpecDB) loadFile(pkgPath, file string) error {
 			cur.Nullable = append(cur.Nullable, strings.Fields(body[9:])...)
 		case body == "assumed":
 			cur.Assumed = true
+		case body == "inline-at-calls":
+			// the contract is verified for the function on its own, but callers keep executing its body (their
+			// proofs need its exact effects, which the contract does not repeat)
+			cur.InlineAtCalls = true
 		case body == "pure":
 			cur.Pure = true
 			cur.ModSet = true
